@@ -306,7 +306,12 @@ def cross_language(bs: List[Fields], d: str) -> Tuple[List[Dict[str, Any]], Dict
         msgs["EMBED1"] = {"id": 3900, "fields": {"inner": "BASE1", "n": "int32"}}
         msgs["EMBED2"] = {"id": 3901, "fields": {"e": "EMBED1", "arr": "BASE6[2]", "h": "HS"}}
         msgs["EMBED3"] = {"id": 3902, "fields": {"deep": "EMBED2"}}
-    prog = defx.Program({"root.yaml": {"constants": CONSTS, "struct_defs": STRUCTS, "message_defs": msgs}})
+    # (the root file also lists two core files itself, as older projects do: a second mention of a file already read changes nothing)
+    import pyrtma as _pk
+
+    cdir = os.path.join(os.path.dirname(os.path.abspath(_pk.__file__)), "core_defs")
+    prog = defx.Program({"root.yaml": {"imports": [os.path.join(cdir, "data_logger.yaml"), os.path.join(cdir, "core_defs.yaml")],
+                                       "constants": CONSTS, "struct_defs": STRUCTS, "message_defs": msgs}})
     try:
         paths = defx.compile_program(prog, d, name="hashes")
     except Exception as e:
@@ -320,7 +325,7 @@ def cross_language(bs: List[Fields], d: str) -> Tuple[List[Dict[str, Any]], Dict
 
     nshipped = 0
     for name, m in p.message_defs.items():
-        if "core_defs" in str(m.src):
+        if name not in msgs:
             cls = getattr(shipped, "MDF_" + name, None)
             nshipped += 1
             if cls is None or cls.type_hash != want[name]:
@@ -345,8 +350,8 @@ def cross_language(bs: List[Fields], d: str) -> Tuple[List[Dict[str, Any]], Dict
         if table is None:
             continue
         for name, h in want.items():
-            if "core_defs" in str(p.message_defs[name].src) and lang == "c":
-                continue  # the C back end omits core items by design
+            if name not in msgs and lang == "c":
+                continue  # the C back end omits core items by design (core = everything this program did not define itself)
             key = name.lstrip("_0123456789") if lang == "matlab" else name
             n += 1
             if table.get(key) != h:
